@@ -24,10 +24,16 @@ int build_hostname(char *buf, size_t buflen, const char *data,
 		   const struct encoder *encoder, int maxlen)
 {
 	size_t space;
+	size_t limit;
+	size_t overhead;
 	char *b;
 
-	space = MIN((size_t)maxlen, buflen) - strlen(topdomain) - 8;
+	limit = MIN((size_t)maxlen, buflen);
+	overhead = strlen(topdomain) + 8;
 	/* 8 = 5 max header length + 1 dot before topdomain + 2 safety */
+
+	/* No room for data at all must not wrap around to "unlimited" */
+	space = (limit > overhead) ? limit - overhead : 0;
 
 	if (!encoder->places_dots)
 		space -= (space / 57); /* space for dots */
@@ -42,12 +48,9 @@ int build_hostname(char *buf, size_t buflen, const char *data,
 	b = buf;
 	b += strlen(buf);
 
-	/* move b back one step to see if the dot is there */
-	b--;
-	if (*b != '.')
-		*++b = '.';
-	b++;
-	/* move b ahead of the string so we can copy to it */
+	/* add the dot unless it is there already (b ends up just behind it) */
+	if (b == buf || b[-1] != '.')
+		*b++ = '.';
 
 	strncpy(b, topdomain, strlen(topdomain)+1);
 
